@@ -223,6 +223,7 @@ namespace riddle
 
     class_declaration *parser::_class_declaration()
     {
+        nesting n_guard(*this);
         std::vector<std::vector<id_token>> bcs;          // the base classes..
         std::vector<const field_declaration *> fs;       // the fields of the class..
         std::vector<const constructor_declaration *> cs; // the constructors of the class..
@@ -724,6 +725,7 @@ namespace riddle
 
     statement *parser::_statement()
     {
+        nesting n_guard(*this);
         switch (tk->sym)
         {
         case BOOL_ID:
@@ -970,6 +972,7 @@ namespace riddle
 
     expression *parser::_expression(const size_t &pr)
     {
+        nesting n_guard(*this);
         expression *e = nullptr;
         switch (tk->sym)
         {
